@@ -352,7 +352,7 @@ def check_conf(case, acc):
                 warnings.simplefilter("ignore")
                 assign_confidence([ds], max_workers=1, scores=[sgn * s.copy()], descs=[not asc], dest_dir=out,
                                   prefixes=[None], decoys=True, deduplication=True, do_rollup=True,
-                                  peps_algorithm=alg)
+                                  peps_algorithm=alg, **({"qvalue_algorithm": case["qalg"]} if case.get("qalg") else {}))
         except BaseException as e:
             viol(f"assign_confidence-{alg}-raises:" + exc_signature(e), f"raised {type(e).__name__}: {e}")
             return "raised"
@@ -376,7 +376,7 @@ def check_conf(case, acc):
                         viol(f"confidence-{level}-row-mixed", f"{name}.{level}: row {pid} carries score {r['score']} / "
                              f"label file {name}, the input PSM has score {sc}, target={lb}")
                         continue
-                    rows.append((pid, sc, lb, float(r["posterior_error_prob"])))
+                    rows.append((pid, sc, lb, float(r["posterior_error_prob"]), float(r["q-value"])))
             if len({r[0] for r in rows}) != len(by_id):
                 # unique spectra and peptides: every level keeps every PSM; otherwise the level's rows are what was kept
                 acc.count("confidence_level_not_all_rows")
@@ -404,6 +404,27 @@ def check_conf(case, acc):
                      f"{level}: posterior_error_prob of {rows[i][0]} (score {ls[i]!r}) is {got[i]!r}, the stand-alone "
                      f"{alg} estimate on the {len(rows)} rows of this level gives {ref[i]!r} for that score; "
                      f"{int((~ok).sum())} rows differ", expected=ref[:12], observed=got[:12])
+            if case.get("qalg"):
+                # the alternative q-value estimator selected for the result files: the q-value column must be the
+                # stand-alone estimate for the rows of this level, row by row
+                from mokapot.qvalues import qvalues_from_scores
+
+                gq = np.array([r[4] for r in rows], dtype=float)
+                try:
+                    with warnings.catch_warnings():
+                        warnings.simplefilter("ignore")
+                        rq = np.asarray(qvalues_from_scores(ls.copy(), ll.copy(), case["qalg"]), dtype=float)
+                except BaseException as e:
+                    viol(f"{case['qalg']}-raises:" + exc_signature(e), f"stand-alone q-values raised {type(e).__name__}: {e}")
+                    continue
+                acc.count("confidence_levels_with_alternative_qvalues")
+                okq = same(gq, rq, 1e-6)
+                if not np.all(okq):
+                    i = int(np.argmax(~okq))
+                    viol(f"confidence-{level}-qvalue-not-aligned-with-row",
+                         f"{level}: q-value ({case['qalg']}) of {rows[i][0]} (score {ls[i]!r}) is {gq[i]!r}, the stand-alone "
+                         f"estimate on the {len(rows)} rows of this level gives {rq[i]!r}; {int((~okq).sum())} rows differ",
+                         expected=rq[:12], observed=gq[:12])
             result.append((level, tuple(np.round(got, 9))))
         return hash(tuple(result))
     finally:
@@ -457,6 +478,10 @@ def run(ctx):
                         continue
                     conf.append({"part": "conf", "pi0": pi0, "sep": sep, "nt": nt, "nd": nd, "round": rnd, "alg": alg,
                                  "order": o, "fmt": fmt})
+                    if fmt == "pin" and o == "asc" and sep == 2.0 and alg == "qvality":
+                        for qalg in ("from_counts", "from_peps"):
+                            conf.append({"part": "conf", "pi0": pi0, "sep": sep, "nt": nt, "nd": nd, "round": rnd, "alg": alg,
+                                         "order": o, "fmt": fmt, "qalg": qalg})
                     if fmt == "pin" and o == "asc" and sep == 2.0:
                         # lower-is-better scores (descs=[False]): the PEP column must follow the returned direction
                         conf.append({"part": "conf", "pi0": pi0, "sep": sep, "nt": nt, "nd": nd, "round": rnd, "alg": alg,
